@@ -149,6 +149,14 @@ func endToEnd(c *fw.Ctx, namers []*namer, idx int, r *fw.Rand) {
 	}
 	conf := sut.DefaultConf()
 	conf.MailboxNaming = n.pol.Config.MailboxNaming
+	// Half of the cases run a POP3 server whose own domain is the recipient's domain (in any letter
+	// case), the situation of a real installation (added after seeded change C04-10).
+	if at := strings.LastIndexByte(a.Text, '@'); at >= 0 && idx%2 == 1 {
+		if d := a.Text[at+1:]; d != "" && strings.Trim(d, "abcdefghijklmnopqrstuvwxyzABCDEFGHIJKLMNOPQRSTUVWXYZ0123456789.-") == "" {
+			conf.POP3.Domain = flipCase(r, d)
+			c.Count("e2e_pop3_domain_is_recipient_domain", 1)
+		}
+	}
 	var env *sut.WebEnv
 	var err error
 	ok, dump := c.Within(60*time.Second, func() { env, err = sut.NewWebEnv(conf, "mem") })
@@ -439,6 +447,40 @@ func endToEnd(c *fw.Ctx, namers []*namer, idx int, r *fw.Rand) {
 		sig += fmt.Sprintf("|ws%d", len(monitors))
 		for _, m := range monitors {
 			_ = m.conn.Close()
+		}
+	}
+
+	// POP3 is a read interface as well.  Its USER argument is taken as the mailbox name as it is
+	// (no address parsing), so it is asked by the name only: the name must be a fixed point there
+	// too - logging in with the mailbox's own name reaches the two messages.  Names with white space
+	// cannot be written on a POP3 command line.
+	if !strings.ContainsAny(name, " \t") {
+		ps := env.StartPOP3()
+		why := ""
+		if _, ok := ps.Greeting(); !ok {
+			why = "no greeting"
+		} else if rep, err := ps.Cmd("USER " + name); err != nil || !rep.OK {
+			why = fmt.Sprintf("USER answered %v %v", rep, err)
+		} else if rep, err := ps.Cmd("PASS x"); err != nil || !rep.OK {
+			why = fmt.Sprintf("PASS answered %v %v", rep, err)
+		} else if rep, err := ps.Cmd("STAT"); err != nil || !rep.OK {
+			why = fmt.Sprintf("STAT answered %v %v", rep, err)
+		} else if f := strings.Fields(rep.First); len(f) < 2 || f[1] != "2" {
+			why = fmt.Sprintf("STAT reports %q, the mailbox holds 2 messages", rep.First)
+		}
+		if why == "" {
+			_, _ = ps.Cmd("QUIT")
+			c.Count("e2e_pop3_by_name", 1)
+		} else if !strings.HasPrefix(why, "no greeting") {
+			key := "C04:pop3-by-name:" + n.mode
+			if e, _ := edgePeriod(n.mode, name); e {
+				key = keyEdgePeriod
+			}
+			c.Violation(key, fmt.Sprintf("mode %s: mail to %q is stored in mailbox %q, but a POP3 login with that name does not reach it (POP3 domain %q): %s",
+				n.mode, a.Text, name, conf.POP3.Domain, why), detail)
+		}
+		if !ps.Ended() {
+			ps.Close()
 		}
 	}
 
